@@ -445,20 +445,6 @@ func trunc(s string, n int) string {
 	return s
 }
 
-func inLiteral(sql string, pos int) bool {
-	in := false
-	for i := 0; i < pos && i < len(sql); i++ {
-		if sql[i] == '\'' {
-			if in && i+1 < len(sql) && sql[i+1] == '\'' {
-				i++
-				continue
-			}
-			in = !in
-		}
-	}
-	return in
-}
-
 var reInsertHead = regexp.MustCompile(`(?is)^\s*INSERT INTO\s+\S+(?:\s+AS\s+\S+)?\s*\(([^)]*)\)\s*(VALUES|SELECT|\(…\))`)
 
 // checkInsert: the ledger column must be written with the store's ledger name.
